@@ -399,7 +399,12 @@ Example C09_session_nonvacuous :
   alias_run [97; 0; 128] = Some [-1; -1; 0; 0] /\
   encB (B [97; 98] 0 9) = [97; 0; 128] /\ length (pack (B [97; 98] 0 9)) = 2%nat.
 Proof.
-  cbv zeta. repeat match goal with |- _ /\ _ => split end; try (vm_compute; reflexivity).
-  repeat (apply Forall_cons; [unfold range_dom; repeat match goal with |- _ /\ _ => split end;
-    try (apply bytes_okb_ok; reflexivity); vm_compute; congruence|]); apply Forall_nil.
+  cbv zeta. repeat match goal with |- _ /\ _ => split end;
+    match goal with
+    | |- Forall _ _ =>
+        (* no vm_compute on this goal: normalising [range_dom] under its binder blows up *)
+        repeat (apply Forall_cons; [unfold range_dom; repeat match goal with |- _ /\ _ => split end;
+          try (apply bytes_okb_ok; reflexivity); vm_compute; congruence|]); apply Forall_nil
+    | |- _ => vm_compute; reflexivity
+    end.
 Qed.
